@@ -1957,7 +1957,8 @@ namespace awkward {
                                            bool ascending,
                                            bool stable) const {
     if (length() == 0 ) {
-     return shallow_copy();
+      // positions, not a copy of the (string, float, ...) data
+      return std::make_shared<NumpyArray>(Index64(0));
     }
 
     if (offsets_.getitem_at_nowrap(0) != 0) {
